@@ -269,7 +269,7 @@ Proof.
     destruct (spec_error c0); [reflexivity|]. f_equal. apply map_ext. intros d.
     assert (generate c1 GPickle = generate c0 GPickle) as GP.
     { unfold generate, explicit_flag, detects. cbn [c_gs c1 c0].
-      destruct gs; try reflexivity. destruct H as [H|H]; [congruence|].
+      destruct gs; try reflexivity. destruct H as [H|H]; [exfalso; apply H; reflexivity|].
       replace (existsb (class_defines c1) (members GPickle)) with (existsb (body_defines c0) [Dg; Dst])
         by (cbn; unfold class_defines; rewrite ?orb_false_r; reflexivity).
       replace (existsb (class_defines c0) (members GPickle)) with (existsb (body_defines c0) [Dg; Dst])
